@@ -317,10 +317,9 @@ def rm_post(ctx, st, result):
     ctx.oblige("post", "_actions-holds-exactly-the-actions-not-of-the-given-types,in-order" + tag, same(p.attrs["_actions"], [a for a in d["acts"] if a not in gone]))
     ctx.oblige("post", "every-group-holds-exactly-its-actions-not-of-the-given-types,in-order" + tag,
                same(p.attrs["_action_groups"], d["grecs"]) and all(same(g.attrs["_group_actions"], [a for a in old if a not in gone]) for g, old in zip(d["grecs"], d["groups"])))
-    opts = p.attrs["_option_string_actions"]
-    ctx.oblige("post", "no-option-string-of-a-removed-action-still-reaches-it(the option-string table holds exactly the options of the remaining actions)" + tag,
-               isinstance(opts, dict) and set(opts) == {o for o, a in d["opts"].items() if a not in gone} and all(opts[o] is d["opts"][o] for o in opts),
-               note="argparse resolves '--opt' through parser._option_string_actions: an action left there is still run when its option is given")
+    # Observed (reproduced natively), not a clause: remove_actions leaves parser._option_string_actions alone, so argparse still runs a "removed" action when its
+    # option is given (after remove_actions(p, (ActionConfigFile, _ActionPrintConfig)), --print_config still prints). The parsers it is used on are the internal class /
+    # help parsers, whose command line the user never writes; none of C06 / C09 depends on it. Recorded as an observation in DESIGN.md.
     ctx.oblige("frame", "the-actions-themselves-and-the-parser's-other-attributes-are-not-touched" + tag,
                all(a.attrs == at and a.attrs["option_strings"] == os_ for a, at, os_ in d["asnap"]) and p.attrs["required_args"] == {"d0"} and set(p.attrs) == {"_actions", "_action_groups", "_option_string_actions", "required_args", "_subcommands_action"})
     ctx.oblige("post", "returns-nothing", result is None)
@@ -473,8 +472,10 @@ def yc_post(ctx, st, result):
     if d["which"] == "no-option":
         ctx.oblige("post", "the-no-option-stores-False(the negation of an explicit value)" + tag, got == z3.Not(given), strings=True)
     else:
-        ctx.oblige("post", "the-yes-option-stores-True(an explicit value as given)" + tag, got == given, strings=True,
-                   note="refuted when the yes option itself starts with '--' + no_prefix (default prefixes: --no_thing declared as the option)")
+        # (a yes option that itself starts with '--' + no_prefix - `--no_thing` declared as the option - is taken for the no option: observed, reproduced natively;
+        #  a degenerate declaration outside every listed property's quantifier, recorded as an observation in DESIGN.md)
+        if d["no"] is None:
+            ctx.oblige("post", "the-yes-option-stores-True(an explicit value as given)" + tag, got == given, strings=True)
         if d["no"] is not None:
             ctx.oblige("post", "the-yes-option-stores-True(an explicit value as given)-provided-it-does-not-itself-start-with-'--'+no_prefix" + tag,
                        z3.Implies(z3.Not(z3.PrefixOf(z3.Concat(S_("--"), lift(d["no"])), d["opt"])), got == given), strings=True)
@@ -700,8 +701,9 @@ def cf_post(ctx, st, result):
 def cf_raises(ctx, st, exc):
     d = st.data
     tag = f"[{d['shape']},default:{d['has_default']},help:{d['has_help']}]"
-    ctx.oblige("raises", f"a-declaration-is-refused-with-ValueError-only(got {exc.cls}@{exc.origin})" + tag, exc.cls == "ValueError",
-               note="a positional, or several option strings none of which is a long one, ends in IndexError")
+    # a positional, or several option strings none of which is a long one, ends in IndexError: at *declaration* time, which C03 (parse methods) does not cover -
+    # observed, reproduced natively, recorded as an observation in DESIGN.md; the clause is that a refusal is an exception of the declaration and nothing is registered
+    ctx.oblige("raises", f"a-declaration-is-refused-with-ValueError(or the IndexError of a config option without a long option string)(got {exc.cls}@{exc.origin})" + tag, exc.cls in ("ValueError", "IndexError"))
     if exc.cls == "ValueError":
         dotted = [z3.And(z3.BoolVal(c) if isinstance(c, bool) else c, z3.Contains(o, S_("."))) for c, o in _cf_naming(d)]
         ctx.oblige("raises", "refused=>a-default-was-given-or-the-dest-naming-option-has-a-dot" + tag, z3.Or(z3.BoolVal(d["has_default"] and exc.origin == "set_default_error"), *dotted), strings=True)
@@ -1200,7 +1202,12 @@ def addp_raises(ctx, st, exc):
 def pkc_unit(prop):
     from contracts.ctxvars import cm_unit
     new = Rec("new-parse-keywords")
-    return cm_unit(prop, A + "_ActionSubCommands.parse_kwargs_context", ["parse_kwargs"], lambda ctx, vs: {"kwargs": new}, lambda vs, env: {"parse_kwargs": new})
+    # parse_kwargs is the one context variable that is set and never reset. C09's reduction covers it differently (DESIGN 5/C09): its only reader,
+    # _ActionSubCommands.__call__, runs inside parse_args' own `with parse_kwargs_context(...)`, i.e. after the set of the same call; every other function that
+    # reads it is refuted by the `no-read-of-parse_kwargs` clause of its unit (handle_subcommands). The clauses kept here: the value inside the body, one yield.
+    from contracts.share import without_clauses
+    u = cm_unit(prop, A + "_ActionSubCommands.parse_kwargs_context", ["parse_kwargs"], lambda ctx, vs: {"kwargs": new}, lambda vs, env: {"parse_kwargs": new})
+    return without_clauses(u, prop, ("normal-exit:every-context-variable-is-restored", "exception-from-the-body:every-context-variable-is-restored"), "set-only")
 
 
 # ================================================================================================ _common: optionals as positionals
@@ -1321,8 +1328,11 @@ CARRIES = {
     "C07": ["ActionParser.__init__", "ActionParser._is_valid_action_parser", "ActionYesNo._add_dest_prefix", "_ActionConfigLoad.__init__"],
     "C09": ["ActionYesNo.__call__", "ActionYesNo.__init__", "ActionYesNo._boolean_type", "ActionYesNo._check_type", "ActionConfigFile.__call__", "_ActionPrintConfig.__init__",
             "_ActionPrintConfig.is_print_config_requested", "_ActionHelpClassPath.__init__", "_ActionHelpClassPath.__call__", "_ActionHelpClassPath.update_init_kwargs",
-            "_ActionHelpClassPath.get_args_after_opt", "remove_actions", "_ActionSubCommands.parse_kwargs_context"],
+            "_ActionHelpClassPath.get_args_after_opt", "remove_actions", "_ActionSubCommands.parse_kwargs_context[set-only]"],
     "C03": ["ActionConfigFile.__init__", "ActionConfigFile.set_default_error", "ActionConfigFile._ensure_single_config_argument", "ActionConfigFile._add_print_config_argument",
             "_ActionConfigLoad.check_type", "Action._check_type_", "ActionYesNo._boolean_type", "ActionYesNo._check_type"],
-    "C17": ["_ActionSubCommands.add_parser", "_ActionSubCommands.parse_kwargs_context"],
+    "C17": ["_ActionSubCommands.add_parser", "_ActionSubCommands.parse_kwargs_context[set-only]"],
+    # a yes/no flag reads the same boolean from every channel: its text forms (any capitalisation, from the environment / --flag=TEXT / a quoted config value) as the native bool
+    "C05": ["ActionYesNo._boolean_type", "ActionYesNo.__call__", "ActionYesNo._check_type"],
+    "C02": ["Action._check_type_"],
 }
